@@ -14,3 +14,7 @@ package contracts
 //@ func maps.Clone
 //@ note trusted: maps.Clone returns a fresh map (nil for nil)
 //@ ensures (ref(m) == 0 ==> ref(result) == 0) && (ref(m) != 0 ==> fresh(result))
+
+//@ func strings.Split
+//@ note trusted: strings.Split with a non-empty separator returns at least one element
+//@ ensures len(result) >= 1
